@@ -50,7 +50,12 @@ Inductive case :=
 | CasePair (probes : list string) (ca cb : list call) (oa ob oi : robs) (hi hi_rev : bool)
 | CaseInsert (probes : list string) (cs : list call) (items : list string) (o : robs)   (* Requirement.Insert(items...) *)
 | CaseCompat (tbl : list (string * string)) (vtbl : list (string * list (string * string))) (allow probes : list string)
-             (a b : list (string * call)) (compat inter : bool).
+             (a b : list (string * call)) (compat inter : bool)
+(* NewPodRequirements / NewStrictPodRequirements: nodeSelector, preferred terms with weights, required terms (OR);
+   observed: every key of the resulting Requirements *)
+| CasePod (tbl : list (string * string)) (vtbl : list (string * list (string * string))) (probes : list string)
+          (strict : bool) (sel : list (string * string)) (prefs : list (Z * list (string * call)))
+          (terms : list (list (string * call))) (obs : list (string * robs)).
 
 Fixpoint zipwith {A B C} (f : A -> B -> C) (a : list A) (b : list B) : list C :=
   match a, b with x :: a', y :: b' => f x y :: zipwith f a' b' | _, _ => [] end.
@@ -86,6 +91,36 @@ Definition inter_spec_b (probes : list string) (a b : reqs) : bool :=
 
 Definition tag (ok : bool) (t : string) : list string := if ok then [] else [t].
 
+(* the heaviest preferred term; ties go to the first one (stable sort by descending weight) *)
+Fixpoint heaviest {X} (best : option (Z * X)) (l : list (Z * X)) : option X :=
+  match l with
+  | [] => option_map snd best
+  | (w, x) :: t =>
+      match best with
+      | None => heaviest (Some (w, x)) t
+      | Some (bw, _) => if (bw <? w)%Z then heaviest (Some (w, x)) t else heaviest best t
+      end
+  end.
+
+(* newPodRequirements: labels of the nodeSelector, then (unless strict) the heaviest preference, then the FIRST
+   required term; each added with Requirements.Add *)
+Definition pod_exprs (strict : bool) (sel : list (string * string)) (prefs : list (Z * list (string * call)))
+    (terms : list (list (string * call))) : list (list (string * call)) :=
+  [map (fun kv : string * string => (fst kv, (In, None, [snd kv]))) sel]
+  ++ (if strict then [] else match heaviest None prefs with Some e => [e] | None => [] end)
+  ++ (match terms with t :: _ => [t] | [] => [] end).
+
+Definition pod_reqs tbl vtbl strict sel prefs terms : reqs :=
+  fold_left (fun acc e => add acc (build_reqs tbl vtbl e)) (pod_exprs strict sel prefs terms) [].
+
+(* Kubernetes' reading of the same pod: a value of key k is acceptable iff every expression on k accepts it *)
+Definition pod_spec_has tbl vtbl strict sel prefs terms (k p : string) : option bool :=
+  let es := filter (fun kc : string * call => String.eqb (norm_key tbl (fst kc)) k) (concat (pod_exprs strict sel prefs terms)) in
+  let cs := map (fun kc : string * call => let '(o, mv, vs) := snd kc in (o, norm_vals vtbl k vs)) es in
+  if forallb (fun c : oper * list string => valid_args (fst c) (snd c)) cs
+  then Some (forallb (fun c : oper * list string => k8s_match (fst c) (snd c) (Some p)) cs)
+  else None.
+
 Definition check_case (c : case) : list string :=
   match c with
   | CaseReq probes cs o =>
@@ -120,6 +155,17 @@ Definition check_case (c : case) : list string :=
       tag (Bool.eqb (compatible allow a b) compat) "corr:compatible"
       ++ tag (Bool.eqb (intersects a b) inter) "corr:intersects"
       ++ tag (Bool.eqb compat (compat_spec_b allow probes a b) && Bool.eqb inter (inter_spec_b probes a b)) "oracle:compatible-spec"
+  | CasePod tbl vtbl probes strict sel prefs terms obs =>
+      let m := pod_reqs tbl vtbl strict sel prefs terms in
+      tag (Nat.eqb (length m) (length obs)
+           && forallb (fun ko : string * robs =>
+                match find (fst ko) m with Some r => obs_matches probes r (snd ko) | None => false end) obs)
+          "corr:pod-requirements"
+      ++ tag (forallb (fun ko : string * robs =>
+                bools_eqb (o_has (snd ko))
+                  (zipwith (fun p h => match pod_spec_has tbl vtbl strict sel prefs terms (fst ko) p with
+                                       | Some b => b | None => h end) probes (o_has (snd ko)))) obs)
+             "oracle:pod-requirements-vs-kubernetes"
   end.
 
 Definition check_all (cs : list (Z * case)) : list (Z * string) :=
